@@ -323,6 +323,7 @@ static void run_out(scpi_t * context, const vh_out_t * o) {
             else if (o->len == 0 && o->announce_delta == 0) { void * c = malloc(1); SCPI_ResultArbitraryBlockData(context, c, 0); free(c); } /* an empty block is completed by an empty data call */
             break;
         }
+        case VO_BLOCK_DATA_ONLY: { void * c = malloc(o->len ? o->len : 1); if (o->len) memcpy(c, o->data, o->len); SCPI_ResultArbitraryBlockData(context, c, o->len); free(c); break; }
         case VO_ARR_INT32: { size_t n = o->len / 4; void * c = malloc(o->len ? o->len : 1); if (o->len) memcpy(c, o->data, o->len); SCPI_ResultArrayInt32(context, (const int32_t *) c, n, (scpi_array_format_t) o->fmt); free(c); break; }
         case VO_ARR_UINT16: { size_t n = o->len / 2; void * c = malloc(o->len ? o->len : 1); if (o->len) memcpy(c, o->data, o->len); SCPI_ResultArrayUInt16(context, (const uint16_t *) c, n, (scpi_array_format_t) o->fmt); free(c); break; }
         case VO_ARR_DOUBLE: { size_t n = o->len / 8; void * c = malloc(o->len ? o->len : 1); if (o->len) memcpy(c, o->data, o->len); SCPI_ResultArrayDouble(context, (const double *) c, n, (scpi_array_format_t) o->fmt); free(c); break; }
